@@ -46,35 +46,87 @@ def _switch_symbol(F, bb, syms, du, cache):
     return res
 
 
-def table(F, syms, actions, record_returns=True, entry=0, max_nodes=200000):
+class _PathDefs:
+    """DefUse view restricted to the last definition of each local along one explored path."""
+
+    def __init__(self, F, base, last):
+        self.fn = F
+        self._base = base
+        self._last = last
+        self.defs = _PathDefsMap(base, last)
+        self.pdefs = base.pdefs
+
+    def single_def(self, local):
+        d = self.defs.get(local, [])
+        return d[0] if len(d) == 1 else None
+
+
+class _PathDefsMap:
+    def __init__(self, base, last):
+        self.base, self.last = base, last
+
+    def get(self, local, default=None):
+        if local in self.last:
+            return [self.last[local]]
+        return self.base.defs.get(local, default if default is not None else [])
+
+    def __contains__(self, local):
+        return local in self.last or local in self.base.defs
+
+
+def table(F, syms, actions, record_returns=True, entry=0, max_nodes=400000, path_sensitive=False,
+          store_fields=()):
     """{assignment (tuple of labels, in syms order): frozenset of action tuples}.
-    An action tuple ends with ('return', <value>) or ('diverge',)."""
+    An action tuple ends with ('ret', <value>) entries for stores into the return place and with
+    ('diverge',) when the path does not return. With path_sensitive=True the returned value is rendered
+    from the definitions met on that very path (no phi of all arms)."""
     du = DefUse(F)
     c = F.cfg()
     cache = {}
     out = {}
     doms = [list(s.domain.items()) for s in syms]
+    # definition sites per block (for path-sensitive rendering)
+    bdefs = {}
+    if path_sensitive:
+        for st in F.stmts():
+            if st.dst is not None and st.dst.is_local():
+                bdefs.setdefault(st.bb, []).append((st.dst.local, ("assign", st)))
+        for tm in F.terms():
+            if tm.is_call and tm.dst is not None and tm.dst.is_local():
+                bdefs.setdefault(tm.bb, []).append((tm.dst.local, ("call", tm)))
     for combo in itertools.product(*doms):
         assign = {s.name: v for s, (v, _) in zip(syms, combo)}
         labels = tuple(l for _, l in combo)
         results = set()
         seen = set()
-        # DFS over (block, actions so far)
-        stack = [(entry, ())]
+        stack = [(entry, (), ())]
         nodes = 0
         while stack:
-            bb, acts = stack.pop()
+            bb, acts, pd = stack.pop()
             nodes += 1
             if nodes > max_nodes:
                 results.add((("explosion",),))
                 break
-            if (bb, acts) in seen:
+            if (bb, acts, pd) in seen:
                 continue
-            seen.add((bb, acts))
+            seen.add((bb, acts, pd))
             b = F.blocks[bb]
             t = b["term"]
             cur = acts
-            if record_returns:
+            if path_sensitive and bb in bdefs:
+                d = dict(pd)
+                for local, site in bdefs[bb]:
+                    d[local] = (site[0], site[1].bb, getattr(site[1], "idx", -1))
+                pd = tuple(sorted(d.items()))
+            if store_fields:
+                for st in F.block_stmts(bb):
+                    if st.dst is not None and st.dst.fields():
+                        fname = st.dst.fields()[-1].rsplit(".", 1)[-1]
+                        if fname in store_fields:
+                            sdu = _PathDefs(F, du, _resolve(F, pd)) if path_sensitive else du
+                            val = show(expr(F, st.rv["use"], sdu)) if st.rv and "use" in st.rv else _ret_desc(F, st.j, sdu)
+                            cur = cur + (("store", "%s=%s" % (fname, val)),)
+            if record_returns and not path_sensitive:
                 for s in b["stmts"]:
                     if s["k"] == "assign" and s["dst"]["local"] == 0 and not s["dst"]["proj"]:
                         cur = tuple(a for a in cur if a[0] != "ret") + (("ret", _ret_desc(F, s, du)),)
@@ -82,11 +134,18 @@ def table(F, syms, actions, record_returns=True, entry=0, max_nodes=200000):
                 tm = F.term(bb)
                 for a in actions:
                     if a.match(tm):
-                        cur = cur + ((a.name, a.describe(F, tm, du) if a.describe else ""),)
+                        if path_sensitive:
+                            pdu = _PathDefs(F, du, _resolve(F, pd))
+                            cur = cur + ((a.name, a.describe(F, tm, pdu) if a.describe else ""),)
+                        else:
+                            cur = cur + ((a.name, a.describe(F, tm, du) if a.describe else ""),)
                         break
-                if record_returns and t["dst"]["local"] == 0 and not t["dst"]["proj"]:
+                if record_returns and not path_sensitive and t["dst"]["local"] == 0 and not t["dst"]["proj"]:
                     cur = tuple(a for a in cur if a[0] != "ret") + (("ret", "call " + _short_callee(tm)),)
             if t["k"] == "return":
+                if record_returns and path_sensitive:
+                    pdu = _PathDefs(F, du, _resolve(F, pd))
+                    cur = cur + (("ret", show(expr(F, Place({"local": 0, "proj": []}), pdu))),)
                 results.add(cur)
                 continue
             succ = c.succ[bb]
@@ -94,23 +153,48 @@ def table(F, syms, actions, record_returns=True, entry=0, max_nodes=200000):
                 results.add(cur + (("diverge",),))
                 continue
             if t["k"] == "switch" and len(succ) > 1:
-                ss = _switch_symbol(F, bb, syms, du, cache)
+                if path_sensitive:
+                    pdu = _PathDefs(F, du, _resolve(F, pd))
+                    ev = expr(F, t["on"], pdu)
+                    known = None
+                    if ev[0] == "const" and isinstance(ev[1], int):
+                        known = ev[1]
+                    elif ev[0] == "discr" and ev[1][0] == "agg" and len(ev[1]) > 3 and ev[1][3] is not None:
+                        known = ev[1][3] & 0xFF if ev[1][3] < 0 else ev[1][3]
+                    elif ev[0] == "un" and ev[1] == "Not" and ev[2][0] == "const" and isinstance(ev[2][1], int):
+                        known = 0 if ev[2][1] else 1
+                    if known is not None:
+                        explicit = dict((v, tb) for v, tb in t["targets"])
+                        stack.append((explicit.get(known, t["otherwise"]), cur, pd))
+                        continue
+                    ss = _switch_symbol(F, bb, syms, pdu, {})
+                else:
+                    ss = _switch_symbol(F, bb, syms, du, cache)
                 if ss is not None:
                     s, neg = ss
                     val = assign[s.name]
                     if s.kind == "bool" and neg:
                         val = 0 if val else 1
-                    tgt = None
                     explicit = dict((v, tb) for v, tb in t["targets"])
-                    if val in explicit:
-                        tgt = explicit[val]
-                    else:
-                        tgt = t["otherwise"]
-                    stack.append((tgt, cur))
+                    tgt = explicit[val] if val in explicit else t["otherwise"]
+                    stack.append((tgt, cur, pd))
                     continue
             for x in succ:
-                stack.append((x, cur))
+                stack.append((x, cur, pd))
         out[labels] = frozenset(results)
+    return out
+
+
+def _resolve(F, pd):
+    """(local, (kind, bb, idx)) tuples -> {local: (kind, site)}"""
+    out = {}
+    for local, (kind, bb, idx) in pd:
+        if kind == "call":
+            out[local] = ("call", F.term(bb))
+        else:
+            for st in F.block_stmts(bb):
+                if st.idx == idx:
+                    out[local] = ("assign", st)
     return out
 
 
